@@ -187,6 +187,63 @@ func (p *c06) Init(tier string, seed int64) {
 			}
 		}
 	}
+	// ... and the same chains with traps: every body but the selected one, every condition behind the selected one
+	// and the else branch when a branch is selected hold something that fails when it is evaluated (an unknown test,
+	// function or filter, a modulo by zero). What is not selected is not evaluated, so none of them may show.
+	traps := []func() gen.Expr{
+		func() gen.Expr { return &gen.ETest{X: num(1), Test: "nosuchtest"} },
+		func() gen.Expr { return &gen.ECall{Fn: "nosuchfunction"} },
+		func() gen.Expr { return &gen.EFilter{X: num(1), Name: "nosuchfilter"} },
+		func() gen.Expr { return &gen.EGroup{X: &gen.EBin{Op: "%", L: num(1), R: num(0)}} },
+		func() gen.Expr {
+			return &gen.ETest{X: num(1), Not: true, Test: "nosuchtest2", Args: []gen.Expr{num(2)}}
+		},
+	}
+	for nelif := 0; nelif <= 3; nelif++ {
+		for _, hasElse := range []bool{false, true} {
+			nc := 1 + nelif
+			for mask := 0; mask < 1<<nc; mask++ {
+				nelif, hasElse, mask := nelif, hasElse, mask
+				p.enum = append(p.enum, func() (*Program, string) {
+					n := &gen.NIf{HasElse: hasElse}
+					ctx := map[string]interface{}{}
+					sel := nc
+					for i := nc - 1; i >= 0; i-- {
+						if mask&(1<<i) != 0 {
+							sel = i
+						}
+					}
+					for i := 0; i < nc; i++ {
+						cn := "c" + strconv.Itoa(i)
+						ctx[cn] = mask&(1<<i) != 0
+						trap := traps[(i+mask+nelif)%len(traps)]()
+						switch {
+						case i > sel:
+							n.Conds = append(n.Conds, trap)
+						default:
+							n.Conds = append(n.Conds, nm(cn))
+						}
+						body := []gen.Node{tx("B" + strconv.Itoa(i))}
+						if i != sel {
+							body = append(body, pr(traps[(i+mask+1)%len(traps)]()), &gen.NFor{Val: "q", Seq: trap, Body: []gen.Node{tx("q")}})
+						}
+						n.Bodies = append(n.Bodies, body)
+					}
+					if hasElse {
+						n.Else = []gen.Node{tx("ELSE")}
+						if sel < nc {
+							n.Else = append(n.Else, pr(traps[mask%len(traps)]()))
+						}
+					}
+					// loops whose bodies are never entered and whose else branches are never taken hold traps too
+					empty := &gen.NFor{Val: "e", Seq: &gen.EArr{}, Body: []gen.Node{tx("never"), pr(traps[(mask+2)%len(traps)]())}, HasElse: true, Else: []gen.Node{tx("E")}}
+					full := &gen.NFor{Val: "e", Seq: &gen.EArr{Els: []gen.Expr{num(1)}}, Body: []gen.Node{tx("F")}, HasElse: true, Else: []gen.Node{tx("never"), pr(traps[(mask+3)%len(traps)]())}}
+					none := &gen.NFor{Val: "e", Seq: &gen.EArr{Els: []gen.Expr{num(1), num(2)}}, Cond: &gen.EBool{V: false}, Body: []gen.Node{tx("never"), pr(traps[(mask+4)%len(traps)]())}}
+					return mkProg(ctx, tx("<"), n, tx("|"), empty, full, none, tx(">")), fmt.Sprintf("if-traps/elif=%d/else=%v/mask=%d", nelif, hasElse, mask)
+				})
+			}
+		}
+	}
 	// truthiness of condition values of every scalar class
 	for ci, cv := range []interface{}{true, false, 1, 0, 2.5, "a", "", nil, "x y"} {
 		ci, cv := ci, cv
@@ -235,12 +292,32 @@ func (p *c06) Init(tier string, seed int64) {
 	// --- loops: sequence kind x length x form ---
 	for _, sk := range c06SeqKinds() {
 		for n := 0; n <= sk.maxN; n++ {
-			for form := 0; form < 4; form++ {
+			for form := 0; form < 6; form++ {
 				sk, n, form := sk, n, form
 				p.enum = append(p.enum, func() (*Program, string) {
 					seq, ctx := sk.build(n)
 					f := &gen.NFor{Val: "v", Seq: seq}
 					switch form {
+					case 4, 5:
+						// the loop stands in a layout and its body is a block (form 5: inside an outer loop, with
+						// nothing but text next to the block); what looks at the loop's variables is the override
+						// in the extending template - nothing in the loop's own body mentions them
+						f.Body = []gen.Node{tx("["), &gen.NBlock{Name: "row", Body: []gen.Node{tx("base-row")}}, tx("]")}
+						lay := []gen.Node{tx("<"), f, tx(">")}
+						if form == 5 {
+							f.Key = "k"
+							lay = []gen.Node{tx("<"), &gen.NFor{Val: "o", Seq: &gen.EArr{Els: []gen.Expr{str("x"), str("y")}}, Body: []gen.Node{tx("(:"), f, tx(":)")}}, tx(">")}
+						}
+						over := []gen.Node{pr(nm("v")), tx(";")}
+						for _, m := range loopMeta {
+							over = append(over, pr(attr(nm("loop"), m)), tx(","))
+						}
+						if form == 5 {
+							over = append(over, tx("k="), pr(nm("k")), tx("p:"), pr(attr(attr(nm("loop"), "parent"), "index")), tx("/"), pr(attr(attr(nm("loop"), "parent"), "length")), tx("^"), pr(&gen.EParent{}))
+						}
+						prog := mkProg(ctx, &gen.NExtends{Tpl: str("lay")}, &gen.NBlock{Name: "row", Body: over})
+						prog.Templates["lay"] = tpl("lay", lay...)
+						return prog, fmt.Sprintf("for/%s/n=%d/body-is-an-overridden-block/%d", sk.name, n, form)
 					case 0:
 						f.Body = loopProbe("", "v", false)
 					case 1:
